@@ -103,26 +103,23 @@ Definition v1_capacity_bytes (d : list N) : outcome N :=
   if 256 <=? m then Panic else
   if 64 <=? m then Panic else
   Ok (((v1_device_size d + 1) * 2 ^ m) mod 2 ^ 64).
-(*  let multiplier = self.device_size_multiplier() + self.read_block_length() - 7;   (u8)
-    (self.device_size() + 1) << multiplier                                           (u32)  *)
+(*  (self.card_capacity_bytes() >> 9) as u32  *)
 Definition v1_capacity_blocks (d : list N) : outcome N :=
-  let s := v1_device_size_multiplier d + read_block_length d in
-  if 256 <=? s then Panic else
-  if s <? 7 then Panic else
-  let m := s - 7 in
-  if 2 ^ 32 <=? v1_device_size d + 1 then Panic else
-  if 32 <=? m then Panic else
-  Ok (((v1_device_size d + 1) * 2 ^ m) mod 2 ^ 32).
+  match v1_capacity_bytes d with
+  | Ok b => Ok ((b / 2 ^ 9) mod 2 ^ 32)
+  | Err e => Err e
+  | Panic => Panic
+  end.
 (*  (u64::from(self.device_size()) + 1) * 512 * 1024  *)
 Definition v2_capacity_bytes (d : list N) : outcome N :=
   let a := (v2_device_size d + 1) * 512 in
   if 2 ^ 64 <=? a then Panic else
   if 2 ^ 64 <=? a * 1024 then Panic else Ok (a * 1024).
-(*  (self.device_size() + 1) * 1024     (u32)  *)
+(*  (self.device_size() + 1).saturating_mul(1024)     (u32)  *)
 Definition v2_capacity_blocks (d : list N) : outcome N :=
   let a := v2_device_size d + 1 in
   if 2 ^ 32 <=? a then Panic else
-  if 2 ^ 32 <=? a * 1024 then Panic else Ok (a * 1024).
+  Ok (if 2 ^ 32 <=? a * 1024 then 2 ^ 32 - 1 else a * 1024).
 
 Inductive csd := CsdV1 (d : list N) | CsdV2 (d : list N).
 
@@ -183,23 +180,25 @@ Section Driver.
   (* Delay::delay: `fuel` is retries_left *)
   Definition delay_us10 : M unit := _ <- call (DelayUs 10) ;; ret tt.
 
-  (* fn wait_not_busy(&mut self, mut delay: Delay) *)
-  Fixpoint wait_not_busy (retries_left : nat) : M unit :=
+  (* the polling loop shared by wait_not_busy, the response loop of card_command and the
+     token loop of read_data:
+         loop { let s = self.read_byte()?; if <stop s> { break s; } delay.delay(.., err)?; }
+     `retries_left` is the field of the Rust `Delay` *)
+  Fixpoint poll (stop : N -> bool) (err : error) (retries_left : nat) : M N :=
     s <- read_byte ;;
-    if s =? 255 then ret tt else
+    if stop s then ret s else
     match retries_left with
-    | O => fail TimeoutWaitNotBusy
-    | S r => delay_us10 ;;; wait_not_busy r
+    | O => fail err
+    | S r => delay_us10 ;;; poll stop err r
     end.
 
+  (* fn wait_not_busy(&mut self, mut delay: Delay) *)
+  Definition wait_not_busy (retries_left : nat) : M unit :=
+    _ <- poll (fun s => s =? 255) TimeoutWaitNotBusy retries_left ;; ret tt.
+
   (* the response loop of card_command *)
-  Fixpoint command_response (retries_left : nat) (command : N) : M N :=
-    result <- read_byte ;;
-    if N.land result 128 =? 0 then ret result else
-    match retries_left with
-    | O => fail (TimeoutCommand command)
-    | S r => delay_us10 ;;; command_response r command
-    end.
+  Definition command_response (retries_left : nat) (command : N) : M N :=
+    poll (fun result => N.land result 128 =? 0) (TimeoutCommand command) retries_left.
 
   Definition frame5 (command arg : N) : list N :=
     [N.lor 64 command; u8 (N.shiftr arg 24); u8 (N.shiftr arg 16); u8 (N.shiftr arg 8); u8 arg].
@@ -219,13 +218,8 @@ Section Driver.
     card_command CMD55 0 ;;; card_command command arg.
 
   (* first loop of read_data: "Get first non-FF byte" *)
-  Fixpoint read_token (retries_left : nat) : M N :=
-    s <- read_byte ;;
-    if negb (s =? 255) then ret s else
-    match retries_left with
-    | O => fail TimeoutReadBuffer
-    | S r => delay_us10 ;;; read_token r
-    end.
+  Definition read_token (retries_left : nat) : M N :=
+    poll (fun s => negb (s =? 255)) TimeoutReadBuffer retries_left.
 
   (* fn read_data(&mut self, buffer: &mut [u8]); `len` = buffer.len() *)
   Definition read_data (len : nat) : M (list N) :=
@@ -294,8 +288,8 @@ Section Driver.
     | S k => delay_us10 ;;; wait_ready k arg
     end.
 
-  (* the closure `f` of acquire *)
-  Definition acquire_inner : M unit :=
+  (* the closure `f` of acquire up to `debug!("Card version: ..")`: yields card_type *)
+  Definition acquire_probe : M card_type :=
     enter_spi_mode (N.to_nat (acquire_retries o)) ;;;
     (if use_crc o
      then r <- card_command CMD59 1 ;;
@@ -304,16 +298,18 @@ Section Driver.
     ca <- check_version (N.to_nat COMMAND_RETRIES) ;;
     let '(card_type0, arg) := ca in
     wait_ready (N.to_nat COMMAND_RETRIES) arg ;;;
-    card_type1 <-
-      (match card_type0 with
-       | SD2 =>
-           r <- card_command CMD58 0 ;;
-           if negb (r =? 0) then fail Cmd58Error else
-           buffer <- transfer_bytes [255; 255; 255; 255] ;;
-           if N.land (nth 0 buffer 0) 192 =? 192 then ret SDHC else ret SD2
-       | t => ret t
-       end) ;;
-    set_ctype (Some card_type1).
+    match card_type0 with
+    | SD2 =>
+        r <- card_command CMD58 0 ;;
+        if negb (r =? 0) then fail Cmd58Error else
+        buffer <- transfer_bytes [255; 255; 255; 255] ;;
+        if N.land (nth 0 buffer 0) 192 =? 192 then ret SDHC else ret SD2
+    | t => ret t
+    end.
+
+  (* the closure `f` of acquire: ..; s.card_type = Some(card_type); Ok(()) *)
+  Definition acquire_inner : M unit :=
+    card_type1 <- acquire_probe ;; set_ctype (Some card_type1).
 
   (* fn acquire:  let result = f(self); let _ = self.read_byte(); result *)
   Definition acquire : M unit :=
@@ -325,11 +321,11 @@ Section Driver.
     c <- get_ctype ;;
     match c with None => acquire | Some _ => ret tt end.
 
-  (* start_block_idx.0 * 512 (u32, overflow-checked) / start_block_idx.0 *)
-  Definition start_idx (idx : N) : M N :=
+  (* start_block_idx.0.checked_mul(512).ok_or(err)? / start_block_idx.0 *)
+  Definition start_idx (idx : N) (err : error) : M N :=
     c <- get_ctype ;;
     match c with
-    | Some SD1 | Some SD2 => if 2 ^ 32 <=? idx * 512 then panic else ret (idx * 512)
+    | Some SD1 | Some SD2 => if 2 ^ 32 <=? idx * 512 then fail err else ret (idx * 512)
     | Some SDHC => ret idx
     | None => fail CardNotFound
     end.
@@ -340,18 +336,29 @@ Section Driver.
     | S k => b <- read_data 512 ;; bs <- read_blocks k ;; ret (b :: bs)
     end.
 
+  (*  let stopped = ..; result?; stopped?;  *)
+  Definition first_error {A B} (result : outcome A) (stopped : outcome B) : M A :=
+    match result with
+    | Ok a => match stopped with Ok _ => ret a | Err e => fail e | Panic => panic end
+    | Err e => fail e
+    | Panic => panic
+    end.
+
   (* SdCardInner::read; `n` = blocks.len(); the result is the content of `blocks` *)
   Definition read_inner (n : nat) (idx : N) : M (list (list N)) :=
-    a <- start_idx idx ;;
+    a <- start_idx idx ReadError ;;
     match n with
     | S O =>
-        card_command CMD17 a ;;;
+        r <- card_command CMD17 a ;;
+        if negb (r =? 0) then fail ReadError else
         b <- read_data 512 ;; ret [b]
     | _ =>
-        card_command CMD18 a ;;;
-        bs <- read_blocks n ;;
-        card_command CMD12 0 ;;;
-        ret bs
+        r <- card_command CMD18 a ;;
+        if negb (r =? 0) then fail ReadError else
+        (* the loop stops at the first failed block; CMD12 is sent in either case *)
+        result <- attempt (read_blocks n) ;;
+        stopped <- attempt (card_command CMD12 0) ;;
+        first_error result stopped
     end.
 
   Fixpoint write_blocks (blocks : list (list N)) : M unit :=
@@ -365,10 +372,11 @@ Section Driver.
 
   (* SdCardInner::write *)
   Definition write_inner (blocks : list (list N)) (idx : N) : M unit :=
-    a <- start_idx idx ;;
+    a <- start_idx idx WriteError ;;
     match blocks with
     | [b] =>
-        card_command CMD24 a ;;;
+        r <- card_command CMD24 a ;;
+        if negb (r =? 0) then fail WriteError else
         write_data DATA_START_BLOCK b ;;;
         wait_not_busy (N.to_nat WRITE_RETRIES) ;;;
         r <- card_command CMD13 0 ;;
@@ -379,25 +387,31 @@ Section Driver.
         (* blocks.len() as u32 *)
         card_acmd ACMD23 (N.of_nat (length blocks) mod 2 ^ 32) ;;;
         wait_not_busy (N.to_nat WRITE_RETRIES) ;;;
-        card_command CMD25 a ;;;
-        write_blocks blocks ;;;
-        wait_not_busy (N.to_nat WRITE_RETRIES) ;;;
-        write_byte STOP_TRAN_TOKEN
+        r <- card_command CMD25 a ;;
+        if negb (r =? 0) then fail WriteError else
+        (* the block loop stops at the first failure, then (if all went well) one more
+           wait_not_busy; Ok -> stop token, Err -> CMD12 (result ignored) and the error *)
+        result <- attempt (write_blocks blocks ;;; wait_not_busy (N.to_nat WRITE_RETRIES)) ;;
+        match result with
+        | Ok _ => write_byte STOP_TRAN_TOKEN
+        | Err e => _ <- attempt (card_command CMD12 0) ;; fail e
+        | Panic => panic
+        end
     end.
 
-  (* fn read_csd *)
+  (* fn read_csd: the register's CSD_STRUCTURE field (data[0] >> 6) selects the layout *)
   Definition read_csd : M csd :=
     c <- get_ctype ;;
     match c with
-    | Some SD1 =>
-        r <- card_command CMD9 0 ;;
-        if negb (r =? 0) then fail RegisterReadError else
-        d <- read_data 16 ;; ret (CsdV1 d)
-    | Some SD2 | Some SDHC =>
-        r <- card_command CMD9 0 ;;
-        if negb (r =? 0) then fail RegisterReadError else
-        d <- read_data 16 ;; ret (CsdV2 d)
     | None => fail CardNotFound
+    | Some _ =>
+        r <- card_command CMD9 0 ;;
+        if negb (r =? 0) then fail RegisterReadError else
+        d <- read_data 16 ;;
+        let v := N.shiftr (nth 0 d 0) 6 in
+        if v =? 0 then ret (CsdV1 d)
+        else if v =? 1 then ret (CsdV2 d)
+        else fail RegisterReadError
     end.
 
   Definition num_blocks_inner : M N :=
